@@ -1,6 +1,6 @@
 """Texts of the MANIFEST entries (level claimed per property)."""
 
-HOOK_COMMITS = ['bf96384', 'fee918b', '9fd4f9c', 'c46c2cb']
+HOOK_COMMITS = ['bf96384', 'fee918b', '9fd4f9c', 'c46c2cb', '19cb2d4']
 
 NOTES = ('All checks: ./check <id> [--tier quick|thorough]; VERIF_SEED / VERIF_TIER honoured. '
          'Fix commits in /repo (unguarded, "fix:"): see known_findings.json entries with status fixed.')
